@@ -381,6 +381,19 @@ pub fn run(ctx: &Ctx) {
                 dense.push(TSweepCase { spec, stateless: len % 3 == 0, write: false, len, buf: len.saturating_sub(16) + slack, nonce: 0, genuine: len % 5 != 0 });
             }
         }
+        // above the dense range: every 3rd length up to the maximum; the four buffer relations rotate,
+        // so each relation sees every 12th length (any 16-byte window is hit with each relation)
+        let top = ctx.tier.pick(2400usize, 9000);
+        for (k, len) in (top + 1..=65535).step_by(ctx.tier.pick(8, 3)).enumerate() {
+            let backend = if k % 2 == 0 { crate::instr::Backend::RingFirst } else { crate::instr::Backend::Default };
+            let suite = *suites.iter().filter(|s| ring_covers(**s)).nth((k / 2) % 4).unwrap();
+            let mut spec = SessionSpec::simple(HsName { pattern: "NN".to_string(), psks: vec![] }, suite, mix(seed, 92));
+            spec.backend_i = backend;
+            spec.backend_r = backend;
+            // tight buffers only (exact / +15): the relation that selects special decrypt paths
+            let slack = [0usize, 15][(k / 2) % 2];
+            dense.push(TSweepCase { spec, stateless: k % 3 == 0, write: false, len, buf: len.saturating_sub(16) + slack, nonce: 0, genuine: k % 7 != 0 });
+        }
         ctx.run_list("dense_lengths_both_backends", &dense, true, tsweep_oracle);
     }
     ctx.run_prop("op_sequences", ctx.tier.pick(40_000, 600_000), || ops::script_strategy(24), script_oracle);
